@@ -80,6 +80,12 @@ def correspond(ctx):
             c = cen.correlation_centroid(im.copy(), ref.copy(), threshold=thr, padding=pad)
             add("correlation_centroid", "okp %s %s (correlation_centroid1 F %s %s %s %d) %s %s" % (hexf(1e-8), hexf(sc_ * pad), flist2(im), flist2(ref), hexf(thr), pad, hexf(c[0, 0]), hexf(c[1, 0])),
                 {"shape": [ny, nx], "padding": pad, "thr": thr, "kind": kind, "nontrivial": nt})
+            # the same frame inside a stack whose other frames sit on other background levels: frame by frame like the model
+            im2 = rand_img(rng, npr, ny, nx, kind)
+            stk = numpy.array([im2 + 7.0, im, im2 * 2 + 0.5])
+            cs_ = cen.correlation_centroid(stk.copy(), ref.copy(), threshold=thr, padding=pad)
+            add("correlation_centroid/stack", "okp %s %s (correlation_centroid1 F %s %s %s %d) %s %s" % (hexf(1e-8), hexf(sc_ * pad), flist2(im), flist2(ref), hexf(thr), pad, hexf(cs_[0, 1]), hexf(cs_[1, 1])),
+                {"shape": [3, ny, nx], "padding": pad, "thr": thr, "kind": kind, "nontrivial": nt})
     nev, failing, errors = run_cases(PID, IMPORTS, PRELUDE, cases, per_file=20)
     hist = {}
     for m in meta:
@@ -148,6 +154,11 @@ def property_checks(inp):
            float(abs(cc[0, 0] - (n // 2 + sx)) + abs(cc[1, 0] - (n // 2 + sy))), 0.05))
         ccr = cen.correlation_centroid(numpy.array([img, ref]).copy(), ref.copy(), threshold=0.3, padding=pad)
         A(("correlation centroid differences equal the shift", float(abs((ccr[0, 0] - ccr[0, 1]) - sx) + abs((ccr[1, 0] - ccr[1, 1]) - sy)), 0.05))
+        lv = [0.0, 5.0, 1.3]
+        st2 = numpy.array([img + lv[0], ref + lv[1], 2 * img + lv[2]])
+        cst = cen.correlation_centroid(st2.copy(), ref.copy(), threshold=0.3, padding=pad)
+        alone = numpy.array([cen.correlation_centroid(f.copy(), ref.copy(), threshold=0.3, padding=pad)[:, 0] for f in st2]).T
+        A(("correlation centroid: stack = frames alone (frames on different background levels)", float(numpy.abs(cst - alone).max()), 1e-9))
         # rectangular frames, padding
         ry, rx = inp["rect"]
         yy, xx = numpy.indices((ry, rx))
